@@ -413,6 +413,13 @@ func (st *vzStrategy) EnterRound(ctx context.Context, rv tmconsensus.RoundView, 
 	return nil
 }
 
+func (st *vzStrategy) asked(kind string, phs []tmconsensus.ProposedHeader) {
+	st.nd.w.mu.Lock()
+	h, r := st.nd.curH, st.nd.curR
+	st.nd.w.mu.Unlock()
+	st.nd.w.orc.onStrategyAsked(st.nd, kind, h, r, phs)
+}
+
 func (st *vzStrategy) pick(phs []tmconsensus.ProposedHeader) (string, bool) {
 	nd := st.nd
 	if len(phs) == 0 {
@@ -454,6 +461,7 @@ func (st *vzStrategy) ConsiderProposedBlocks(ctx context.Context, phs []tmconsen
 	if len(phs) > 0 {
 		st.nd.w.orc.onStrategyOffered(st.nd, phs[0].Header.Height, phs[0].Round, phs, false)
 	}
+	st.asked("consider", phs)
 	if hsh, ok := st.pick(phs); ok {
 		st.nd.w.s.Logf("%s consider -> %x", st.nd.ident(), trunc(hsh))
 		return hsh, nil
@@ -466,6 +474,7 @@ func (st *vzStrategy) ChooseProposedBlock(ctx context.Context, phs []tmconsensus
 	if st.nd.gone(st.inc) {
 		return "", context.Canceled
 	}
+	st.asked("choose", phs)
 	hsh, _ := st.pick(phs)
 	if hsh == "" && !st.nd.byz {
 		// nothing acceptable: prevote nil, unless locked
@@ -987,6 +996,9 @@ func (w *vzWorld) headerSync(nd, donor *vzNode, h uint64) {
 			w.mu.Unlock()
 		}()
 		w.s.ParkID(fmt.Sprintf("%s.sync%d", ident, id), "replay", "send")
+		if ctx.Err() != nil {
+			return // the process has died meanwhile
+		}
 		// open finding (C09, "replay for earlier round"): a genuine replay whose commit round is below the
 		// node's voting round panics the kernel; the sync service does not offer those
 		if n := len(nd.disk.nhr); n > 0 && nd.disk.nhr[n-1][0] == h && uint64(ch.Proof.Round) < nd.disk.nhr[n-1][1] {
@@ -1001,8 +1013,18 @@ func (w *vzWorld) headerSync(nd, donor *vzNode, h uint64) {
 		}
 		select {
 		case r := <-resp:
+			if ctx.Err() != nil {
+				// answered by a dying process (its kernel took the request while it was unwinding):
+				// the same as no answer, whichever of the two the runtime happened to pick
+				w.orc.onReplayUnanswered(nd, ch.Header)
+				return
+			}
 			// the kernel runs on after it has answered: wait for the scheduler before touching the log
 			w.s.ParkID(fmt.Sprintf("%s.sync%d", ident, id), "replay", "result")
+			if ctx.Err() != nil {
+				w.orc.onReplayUnanswered(nd, ch.Header)
+				return
+			}
 			w.s.Logf("header sync %d => err=%v", id, r.Err)
 			if r.Err == nil {
 				w.s.Probe("header_sync_accepted")
